@@ -221,6 +221,7 @@ class Ctx:
         self.extra = {}
         self.deadline = None
         self.search_mode = False
+        self.journal = None     # path: the case being run is journalled so that a hard crash can be attributed
 
     # -- bookkeeping ---------------------------------------------------------------------------
     def quick(self):
@@ -243,6 +244,12 @@ class Ctx:
             self.distinct.add(dg)
         if len(self.samples) < 3 or (sample_every and self.evaluations % sample_every == 0 and len(self.samples) < 8):
             self.samples.append(case)
+        if self.journal:
+            try:
+                with open(self.journal, 'w') as f:
+                    json.dump(case, f, default=str)
+            except Exception:
+                pass
         if self.deadline and time.time() > self.deadline:
             raise Timeout()
         return dg
